@@ -14,6 +14,7 @@
      xfocus               the node a path addresses in the expanded tree;
      extends st st'       every block of st is in st' under the same link;
      coherent mklink S    no block of S sits under the link of a different block. *)
+Require IP.Proofs.XformLoad.
 Require Import IP.Base.Bytes IP.DM.Value IP.Xform.Transform IP.Xform.WalkT.
 Require Import IP.Proofs.XformBase IP.Proofs.XformFocus IP.Proofs.XformLaws IP.Proofs.XformRefute
   IP.Proofs.XformExpand IP.Proofs.XformWalk IP.Proofs.XformSeg.
@@ -182,6 +183,22 @@ Theorem C16_walk_relink_refuted : forall sq,
   exists st root r, wt sq gsame st 20 sel_all [] root [] = Ok r /\ fst r <> root /\ fst r = inline 5 st root.
 Proof. exact walk_identity_inlines_links. Qed.
 Print Assumptions C16_walk_relink_refuted.
+
+(* A transform that has to go through a link whose block the storage does not hold — or refuses to load, whatever
+   the loader's error (the run's read faults answer SkipMe or a plain error for every block) — fails with the load
+   error, for every callback, option and defect setting: at the root ... *)
+Theorem C16_missing_block_fails : forall ltb mklink q f cp fault fu st c seg p,
+  lookup c st = None ->
+  focused_transform ltb mklink q f cp fault (S fu) st (DLink c) (seg :: p) = Err ELoad.
+Proof. exact IP.Proofs.XformLoad.focused_transform_root_link_missing. Qed.
+Print Assumptions C16_missing_block_fails.
+
+(* ... and at any position the descent has reached, with whatever has been logged and stored so far *)
+Theorem C16_missing_block_fails_anywhere : forall ltb mklink q f cp fault fu c na seg p2 w,
+  lookup c (w_store w) = None ->
+  ft ltb mklink q f cp fault (S fu) (Some (DLink c)) na (seg :: p2) w = Err ELoad.
+Proof. exact IP.Proofs.XformLoad.ft_link_missing. Qed.
+Print Assumptions C16_missing_block_fails_anywhere.
 
 (* the hypotheses are satisfiable (a link is crossed, the final store is coherent) *)
 Theorem C16_examples :
